@@ -28,7 +28,9 @@ SVec    == {"SpatialVelocity", "SpatialAcceleration", "SpatialForce", "SpatialMo
 DQuats  == {"DualQuaternion", "UnitDualQuaternion"}
 Classes == Pose \cup Quats \cup Twists \cup SVec \cup {"Plucker", "SpatialInertia"} \cup DQuats
 Scalars == {"Int", "Float"}
-Foreign == Scalars \cup {"Vec", "BadArr"}
+\* "PtsMat": a d x 4 array of column points conforming to the left operand; "SelfMat": an array of the very shape of the
+\* left operand's own matrix (2x2 / 3x3 / 4x4)
+Foreign == Scalars \cup {"Vec", "BadArr", "PtsMat", "SelfMat"}
 Kinds   == Classes \cup Foreign
 
 ArithOps == {"*", "/", "+", "-", "**", "@"}
@@ -103,6 +105,12 @@ DocObjForeign(op, L, R) ==
              [] OTHER -> Unspec )
     [] R = "Vec" ->
          ( CASE op = "*" /\ L \in (Pose \cup {"UnitQuaternion", "UnitDualQuaternion"}) -> ArrR
+             [] OTHER -> Unspec )
+    \* the tables of / say "any other input combination results in a ValueError": pose / array is such a combination;
+    \* a pose or unit quaternion times a matrix of points is decided for single-valued left operands only (C06), so the
+    \* cell is left open here - but NO arithmetic cell, decided or not, may return None (checked by the harness)
+    [] R \in {"PtsMat", "SelfMat"} ->
+         ( CASE op = "/" /\ L \in Pose                               -> RaiseR
              [] OTHER -> Unspec )
     [] OTHER -> Unspec
 
